@@ -74,7 +74,8 @@ PROPS = {
         "runner": "Run04",
         "theorems": ["C04_match_iff_language", "C04_residual_is_left_quotient", "C04_derivative_step",
                      "C04_normalisation_preserves_language", "C04_nullable_iff_empty_string", "C04_nonempty_has_witness",
-                     "C04_nonempty_exact_without_and_not", "C04_forced_end", "C04_literal"],
+                     "C04_nonempty_exact_without_and_not", "C04_forced_end", "C04_literal",
+                     "C04_substring", "C04_substring_chars"],
         "rule": "random regex ASTs (literals incl. multi-byte characters, classes, concatenation, |, ?, *, +, {m,n}, &, ~) "
                 "printed as /regex/ or as Lark terminal expressions; strings = mask-guided walks on the implementation "
                 "(members), their mutations, random strings; single-byte and multi-byte vocabularies (tokens ending inside "
@@ -223,6 +224,7 @@ PROPS = {
         "runner": "Run18",
         "theorems": ["C18_silent_after_stop", "C18_stopped_is_sticky", "C18_output_plus_pending_is_text", "C18_stop_token_cut",
                      "C18_partials_step", "C18_reported_match_is_a_match", "C18_no_match_missed", "C18_utf8_cut_bounds",
+                     "C18_run_stops_at_first_match", "C18_run_without_match", "C18_returned_piece_is_utf8_cut",
                      "C18_failed_matcher_is_sticky", "C18_every_error_fails_the_matcher", "C18_out_of_range_token_refused"],
         "rule": "(a) stop controller: vocabularies with tokens splitting UTF-8 characters, special and empty tokens; 0-2 stop strings "
                 "(overlapping), optional stop regex, stop tokens; random segmentations of text containing stop candidates, one third "
@@ -236,17 +238,75 @@ PROPS = {
         "level_text": "Theorems (stop controller model): nothing is returned after a stop and the stop is permanent; while running, returned "
                       "text plus held-back text is exactly the decoded text; a stop token cuts exactly before itself; the set of live partial "
                       "matches is exact for every stop expression, so a reported match is a real match ending at the current byte and none is "
-                      "missed; the UTF-8 cut stays inside the data. Theorems (matcher model): every error switches the matcher to a permanent "
+                      "missed; over a whole run the returned text is exactly the decoded text before the first match to complete (the shortest "
+                      "match ending there removed) and the controller is then stopped, and without a match returned plus held-back text is "
+                      "the whole text; the UTF-8 cut stays inside the data. Theorems (matcher model): every error switches the matcher to a permanent "
                       "failed state in which every call fails and nothing changes; out-of-range token ids are refused. The implementation is "
                       "compared with the model on random streams and call sequences.",
-        "level_note": "Partial: the whole-run statement 'output = text before the first match' is assembled from the proved pieces only "
-                      "informally (no single theorem); Constraint-level protocol properties and 'stop exactly when complete and not "
-                      "extendable' are checked differentially against the CFG specification, not proved.",
+        "level_note": "Partial: the stop controller is proved over whole runs (text before the first match to complete, nothing after, "
+                      "nothing lost without a match) for ordinary tokens and one stop expression; the Constraint-level protocol and "
+                      "'stop exactly when the text is complete and cannot be extended' are checked differentially against the CFG "
+                      "specification, not proved.",
+    },
+    "C06": {
+        "runner": "Run06",
+        "jsonschema_judge": True,
+        "theorems": ["C06_every_admitted_string_is_a_valid_instance", "C06_object_members_exact",
+                     "C06_array_items_exact", "C06_bounded_sequence_exact"],
+        "rule": "(a) modelled fragment: random schemas over null, boolean, integer ranges, strings with min/maxLength, const, anyOf, "
+                "arrays (prefixItems, items or items:false, minItems, maxItems, a twelfth of them unsatisfiable), objects (properties "
+                "with required / optional members, additionalProperties false or a schema) to depth 3, compact separators; byte-complete "
+                "vocabularies with JSON-shaped multi-byte tokens; strings compared: canonical valid instances, three mutants each "
+                "(delete / insert / replace a character, duplicate a segment, swap around a comma), outputs sampled by mask-guided walks; "
+                "each string: implementation vs model vs the harness's own validator; rejected schemas: the model admits nothing either. "
+                "(b) extended family, implementation only: number bounds, multipleOf, enum, allOf (also of arrays with different "
+                "prefixItems / items), type lists, formats date / uuid / ipv4, patterns, min/maxProperties, recursive $ref, flexible "
+                "whitespace; every sampled output is judged by the harness's exact-arithmetic validator and by python-jsonschema "
+                "(Draft 2020-12, formats asserted). non-trivial = schemas with both admitted and refused strings",
+        "trusted_base": ["modelled, not verified: parser/src/json/compiler.rs gen_json_object / object_fields / ordered_sequence / "
+                         "bounded_sequence / sequence / gen_json_array / process_any_of / compile_const / json_int / string lengths "
+                         "(coq/JsonModel.v: list-of-successes matchers instead of grammar nodes; the Earley engine that runs the grammar "
+                         "is the subject of C01/C05)",
+                         "not modelled (implementation-only judges): schema.rs normalisation (allOf intersection, $ref, type lists, "
+                         "enum), numbers (C08 has the theorems for the range regexes), pattern / format, patternProperties, "
+                         "min/maxProperties, whitespace options, string escapes and non-ASCII characters",
+                         "judges: harness/src/c06.rs validator (exact decimals), python-jsonschema 4.x from the tooling venv when present"],
+        "assumptions": ["fragment: compact separators, strings of printable ASCII without escapes, integer bounds in i64, "
+                        "required keys listed in properties, distinct keys"],
+        "level_text": "Theorem (fragment, every schema and every string): whatever the modelled grammar admits spells a valid instance "
+                      "with the listed members at most once and in schema order; the sequence constructors (ordered_sequence, "
+                      "bounded_sequence, arrays with prefixItems / items / min / max) generate exactly the intended sequences. "
+                      "The implementation is compared with the model string by string and judged by two independent validators on "
+                      "sampled outputs, also outside the fragment.",
+        "level_note": "Partial: theorems cover the modelled fragment of compiler.rs; schema.rs normalisation, numbers inside documents, "
+                      "patterns, formats and escapes are covered by sampling with independent judges only.",
+    },
+    "C07": {
+        "runner": "Run06",
+        "theorems": ["C07_every_valid_instance_is_admitted", "C07_serialisation_is_a_spelling",
+                     "C07_object_members_exact", "C07_sequence_exact"],
+        "rule": "(a) the modelled fragment as for C06: canonical instances of random schemas, tokenised at random over JSON-shaped "
+                "vocabularies, must be accepted token by token and end accepting; the same strings, their mutants and sampled outputs "
+                "are compared with the model. (b) default (flexible) whitespace: the compact text and the text with a blank after every "
+                "separator are accepted. (c) beyond the fragment, schema and instance generated together: integer multipleOf inside "
+                "bounds, decimal bounds, enum, type lists, strings with escapes / non-ASCII / surrogate pairs under length bounds, "
+                "tuples, anyOf, objects with optional members left out, recursive $ref lists; serde_json's compact serialisation must "
+                "be accepted with and without flexible whitespace. non-trivial = schemas with both admitted and refused strings",
+        "trusted_base": ["as for C06: coq/JsonModel.v models compiler.rs on the fragment; (b) and (c) are implementation-only",
+                         "instance generators in harness/src/c06.rs (each generated pair is first confirmed by the harness's validator)"],
+        "assumptions": ["fragment as for C06; object members in the order the schema lists them, additional members after them"],
+        "level_text": "Theorem (fragment, every schema and every instance): a valid instance serialised compactly with members in schema "
+                      "order is admitted by the modelled grammar; optional / required member sequencing and array tails are exact. "
+                      "The implementation is compared with the model on the same strings; canonical instances of richer schemas "
+                      "are checked on the implementation.",
+        "level_note": "Partial: as for C06 the theorems cover the modelled fragment; $ref, numbers, multipleOf, enum, escapes and whitespace "
+                      "options are covered by sampling.",
     },
     "C08": {
         "runner": "Run08",
         "theorems": ["C08_integer_range_exact", "C08_integer_range_only_literals", "C08_empty_integer_range_rejected",
-                     "C08_fraction_at_least", "C08_fraction_at_most", "C08_multiple_of_lcm_exact", "C08_multiple_of_exact"],
+                     "C08_fraction_at_least", "C08_fraction_at_most", "C08_multiple_of_lcm_exact", "C08_multiple_of_exact",
+                     "C08_decimal_range_exact", "C08_empty_decimal_range_rejected"],
         "rule": "integer bounds: all pairs in a window exhaustively plus magnitudes around powers of ten and i64 extremes, with every "
                 "combination of minimum/maximum/exclusive*; decimal bounds with up to three fractional digits and magnitudes up to "
                 "1e15 (beyond that the f64 carrying the bound is not the written decimal); literals: integers and decimals in and "
@@ -264,9 +324,12 @@ PROPS = {
         "level_text": "Theorems: for every pair of optional i64 bounds the integer-range regex accepts an integer literal exactly when its "
                       "value is inside, accepts nothing but integer literals, and is an error exactly for empty ranges; the two fraction "
                       "comparisons from which decimal ranges are built are exact for every digit string (trailing zeros, shorter and longer "
-                      "than the bound); the multipleOf lcm (variant read from numeric.rs) is exact or an error.",
-        "level_note": "Partial: the assembly of rx_float_range from the fraction lemmas is checked differentially (model vs implementation "
-                      "on the grid), not proved as one theorem; multipleOf membership is implementation-only.",
+                      "than the bound); for every pair of optional decimal bounds, inclusive or exclusive, the decimal-range regex accepts a "
+                      "plain decimal literal exactly when its value is inside, and is an error exactly for empty combinations; the "
+                      "multipleOf lcm and the u32 remainder arithmetic (variants read from the source) are exact or an error.",
+        "level_note": "Model hand-written from numeric.rs (regex ASTs instead of regex strings). The interaction of bounds with "
+                      "multipleOf (intersection of the two regexes, multiple spellings of decimals) is checked by the exact-arithmetic "
+                      "oracle on the implementation, not proved as one theorem.",
     },
     "C15": {
         "runner": "Run15",
